@@ -64,6 +64,60 @@ def _num(e):
     raise ValueError('not a value: %s' % e)
 
 
+def _robust(f, eps):
+    """strengthen a quantifier-free formula so that its real-valued comparisons hold with margin eps
+    (used only to pick counterexample models that survive float rounding in replay)"""
+    g = z3.Goal()
+    g.add(f)
+    f = z3.Tactic('nnf')(g).as_expr()
+    e = z3.RealVal(eps)
+
+    def is_real_cmp(a):
+        return a.num_args() == 2 and a.arg(0).sort() == z3.RealSort()
+
+    def walk(t):
+        k = t.decl().kind()
+        if k == z3.Z3_OP_AND:
+            return z3.And(*[walk(c) for c in t.children()])
+        if k == z3.Z3_OP_OR:
+            return z3.Or(*[walk(c) for c in t.children()])
+        if k == z3.Z3_OP_NOT:
+            a = t.arg(0)
+            ka = a.decl().kind()
+            if is_real_cmp(a):
+                x, y = a.arg(0), a.arg(1)
+                if ka in (z3.Z3_OP_LE, z3.Z3_OP_LT):
+                    return x >= y + e
+                if ka in (z3.Z3_OP_GE, z3.Z3_OP_GT):
+                    return x <= y - e
+                if ka == z3.Z3_OP_EQ:
+                    return z3.Or(x >= y + e, x <= y - e)
+            return t
+        if is_real_cmp(t):
+            x, y = t.arg(0), t.arg(1)
+            if k in (z3.Z3_OP_LE, z3.Z3_OP_LT):
+                return x <= y - e
+            if k in (z3.Z3_OP_GE, z3.Z3_OP_GT):
+                return x >= y + e
+        return t
+    return walk(f)
+
+
+def _robust_model(ctx, neg_ob):
+    """a model of pc /\ neg_ob whose comparisons hold with a margin, if there is one"""
+    try:
+        pc = z3.And(*ctx.solver.assertions()) if len(ctx.solver.assertions()) else z3.BoolVal(True)
+        for eps in (1e-3, 1e-6):
+            s = z3.Solver()
+            s.set('timeout', 5000)
+            s.add(_robust(z3.And(pc, neg_ob), eps))
+            if str(s.check()) == 'sat':
+                return s.model()
+    except Exception:
+        pass
+    return None
+
+
 def explore_unit(inst, prefix, max_paths=400, max_seconds=30.0, want_witness=False):
     """returns a dict of statistics, failures, and leftover prefixes"""
     t0 = time.time()
@@ -120,6 +174,7 @@ def explore_unit(inst, prefix, max_paths=400, max_seconds=30.0, want_witness=Fal
                     if rr == 'unsat':
                         out['discharged'] += 1
                     elif rr == 'sat':
+                        mm = _robust_model(ctx, z3.Not(o)) or mm
                         vals, tables = _model_values(ctx, mm)
                         out['failures'].append(dict(instance=inst.name, obligation=n, prefix=list(ctx.decisions),
                                                     values=vals, tables=tables, notes=list(ctx.notes)))
